@@ -16,7 +16,8 @@ static int src_call(m_mod_t *h, int kind, int key, int reg, int flags, const voi
     case K_FD: return reg ? m_mod_src_register_fd(h, key == 15 ? -1 : key == 14 ? BADFD : UFD[key].rd, fl, up) : m_mod_src_deregister_fd(h, UFD[key].rd);
     case K_TMR: { m_src_tmr_t t = { CLOCK_MONOTONIC, key == 15 ? 0 : TPER[key] }; return reg ? m_mod_src_register_tmr(h, &t, fl, up) : m_mod_src_deregister_tmr(h, &t); }
     case K_SGN: { m_src_sgn_t g = { key == 15 ? 0 : SIGS[key] }; return reg ? m_mod_src_register_sgn(h, &g, fl, up) : m_mod_src_deregister_sgn(h, &g); }
-    case K_PATH: { m_src_path_t pt = { key == 15 ? "" : PATHS[key], 0x100 | 0x200 /* IN_CREATE | IN_DELETE */ }; return reg ? m_mod_src_register_path(h, &pt, fl, up) : m_mod_src_deregister_path(h, &pt); }
+    case K_PATH: { char *tmp = (reg && (flags & 4) && key != 15) ? strdup(PATHS[key]) : NULL;      /* DUP: the caller's string goes away right after the call */
+        m_src_path_t pt = { key == 15 ? "" : tmp ? tmp : PATHS[key], 0x100 | 0x200 /* IN_CREATE | IN_DELETE */ }; int r = reg ? m_mod_src_register_path(h, &pt, fl, up) : m_mod_src_deregister_path(h, &pt); free(tmp); return r; }
     case K_PID: { m_src_pid_t pd = { key == 15 ? 0 : CHILD[key], 0 }; return reg ? m_mod_src_register_pid(h, &pd, fl, up) : m_mod_src_deregister_pid(h, &pd); }
     case K_TASK: { m_src_task_t tk = { key + 1, key == 15 ? NULL : task_fn }; return reg ? m_mod_src_register_task(h, &tk, fl, up) : m_mod_src_deregister_task(h, &tk); }
     case K_THRESH: { m_src_thresh_t th = key == 15 ? (m_src_thresh_t){ 0, 0 } : THR[key]; return reg ? m_mod_src_register_thresh(h, &th, fl, up) : m_mod_src_deregister_thresh(h, &th); }
@@ -89,10 +90,16 @@ static void do_api(op_t op) {
     switch (op.c) {
     /* ------------------------------------------------ context */
     case O_CTX_REG: {
-        rc = m_ctx_register("ctx", op.b ? M_CTX_PERSIST : 0, NULL);
+        {   /* op.d: 1 = NAME_DUP (the caller's buffer goes away at once), 2 = name and user data handed over as auto-free blocks */
+            char *tmpname = op.d == 1 ? strdup("ctx") : NULL, *hname = op.d == 2 ? lg_malloc(4) : NULL; void *hud = op.d == 2 ? lg_malloc(8) : NULL;
+            if (hname) strcpy(hname, "ctx");
+            rc = m_ctx_register(tmpname ? tmpname : hname ? hname : "ctx", (op.b ? M_CTX_PERSIST : 0) | (op.d == 1 ? M_CTX_NAME_DUP : op.d == 2 ? M_CTX_NAME_AUTOFREE | M_CTX_USERDATA_AUTOFREE : 0), hud);
+            free(tmpname);
+            if (rc) { if (hname && lg_is_live(hname)) lg_free(hname); if (hud && lg_is_live(hud)) lg_free(hud); }      /* rejected: still the caller's */
+        }
         if (CX.exists) { if (rc != -EEXIST) vfail("CX.one", "CX.one", "second m_ctx_register returned %d, expected -EEXIST", rc); break; }
         if (rc) vfail("CX.reg", "CX.reg", "m_ctx_register returned %d on a thread without a context", rc);
-        CX.exists = 1; CX.persist = op.b; CX.looping = CX.quit = CX.finalized = CX.tick = 0; CX.ever = 1;
+        CX.exists = 1; CX.persist = op.b; CX.var = op.d; CX.looping = CX.quit = CX.finalized = CX.tick = 0; CX.ever = 1;
         break; }
     case O_CTX_DEREG: {
         take_snap(&sn);
@@ -132,7 +139,7 @@ static void do_api(op_t op) {
         switch (op.a) {
         case 0: { rc = (int)m_ctx_len(); int busy = teardown_busy; for (int i = 0; i < NM; i++) busy |= dereg_busy[i];
             if (!denied && !busy && rc != n_present()) vfail("CX.len", "CX.len", "m_ctx_len=%d, monitor has %d modules", rc, n_present()); break; }
-        case 1: rc = m_ctx_name() ? 0 : -1; break;
+        case 1: { const char *cn = m_ctx_name(); rc = cn ? 0 : -1; if (cn && strcmp(cn, "ctx")) vfail("CX.name", "CX.name", "m_ctx_name returned '%s', registered 'ctx'", cn); } break;
         case 2: { m_ctx_stats_t st; rc = m_ctx_stats(&st); if (!denied && !CX.looping) rc = 0; } break;
         case 3: rc = m_ctx_dump(); break;
         case 4: { int fd = m_ctx_fd(); rc = fd < 0 ? fd : 0; if (fd >= 0) { __real_close(fd); shim_user_fd_forget(fd); } } break;
@@ -315,7 +322,8 @@ static void do_api(op_t op) {
             if (tb_account(s, rc, &sn, "subscribe")) break;
             if (rc) vfail("SR.set", "SR.set|sub", "subscribe(%s) by %s returned %d (a repeated subscription is updated in place)", PAT[p], MD[s].name, rc);
             if (MD[s].sub[p].present && (MD[s].sub[p].prio != prio || MD[s].sub[p].oneshot != oneshot || MD[s].sub[p].dup != dup || MD[s].sub[p].af != af)) MD[s].life |= 1024;   /* replaced, not updated in place: a different path in the library */
-            MD[s].sub[p] = (sub_t){ 1, prio, oneshot, upver, dup, af }; MD[s].life |= 32;
+            { int replaced = !MD[s].sub[p].present || MD[s].sub[p].prio != prio || MD[s].sub[p].oneshot != oneshot || MD[s].sub[p].dup != dup || MD[s].sub[p].af != af; int g = MD[s].sub[p].gen + (replaced ? 1 : 0);
+              MD[s].sub[p] = (sub_t){ 1, prio, oneshot, upver, dup, af, g }; } MD[s].life |= 32;
         } else {
             rc = m_mod_ps_unsubscribe(h, PAT[p]);
             if (legal && MD[s].sub[p].present && tb_account(s, rc, &sn, "unsubscribe")) break;
